@@ -147,6 +147,56 @@ func (w *World) unfoldSpecs(ts []*Term, depth int, reveal map[string]bool) []*Te
 }
 
 // buildScript renders the SMT-LIB text of one obligation (without the shared prelude).
+// coneOnly: when set, quantified assumptions are kept only if they mention a symbol in the goal's cone
+// of influence (closure of the goal's symbols under the definitions of the named constants).  Sound:
+// it only drops assumptions.
+var coneOnly bool
+
+var builtinSyms = map[string]bool{"and": true, "or": true, "not": true, "=>": true, "=": true, "ite": true, "select": true, "store": true,
+	"+": true, "-": true, "*": true, "<": true, "<=": true, "true": true, "false": true, "forall": true, "exists": true, "!": true, ":pattern": true,
+	"": true, "str.++": true, "str.len": true, "str.prefixof": true, "str.suffixof": true, "str.substr": true, "str.<": true, "str.<=": true,
+	"str.contains": true, "str.at": true, "str.to_code": true, "str.indexof": true, "mk_slice": true, "s_base": true, "s_off": true, "s_len": true,
+	"s_cap": true, "sidx": true, "any_nil": true, "box_ptr": true, "ptag": true, "pref": true, "div": true, "mod": true}
+
+func coneOf(goal []*Term, asserts []*Term) map[string]bool {
+	defs := map[string]*Term{}
+	for _, a := range asserts {
+		if a.Op == "=" && len(a.Args) == 2 && len(a.Args[0].Args) == 0 {
+			defs[a.Args[0].Op] = a.Args[1]
+		}
+	}
+	cone := map[string]bool{}
+	var work []string
+	add := func(t *Term) {
+		for k := range t.summary().syms {
+			if !builtinSyms[k] && !cone[k] && !(len(k) > 0 && (k[0] == '"' || (k[0] >= '0' && k[0] <= '9'))) {
+				cone[k] = true
+				work = append(work, k)
+			}
+		}
+	}
+	for _, g := range goal {
+		add(g)
+	}
+	for len(work) > 0 {
+		k := work[len(work)-1]
+		work = work[:len(work)-1]
+		if d, ok := defs[k]; ok {
+			add(d)
+		}
+	}
+	return cone
+}
+
+func intersects(t *Term, cone map[string]bool) bool {
+	for k := range t.summary().syms {
+		if cone[k] {
+			return true
+		}
+	}
+	return false
+}
+
 // qfOnly: when set, assumptions containing quantifiers are left out (sound: fewer assumptions); trivial
 // goals are then decided without the solver wading through the quantified context.
 var qfOnly bool
@@ -217,14 +267,24 @@ func (o *Obligation) buildBody(w *World, depth int, dropHyp int, extra ...*Term)
 	for _, ca := range axioms {
 		fmt.Fprintf(&sb, "(assert %s)\n", ca.term)
 	}
+	var cone map[string]bool
+	if coneOnly {
+		cone = coneOf(append([]*Term{o.Goal}, hyps...), append(append([]*Term{}, asserts...), unf...))
+	}
 	for _, a := range asserts {
 		if qfOnly && hasQuant(a) {
+			continue
+		}
+		if coneOnly && hasQuant(a) && !intersects(a, cone) {
 			continue
 		}
 		fmt.Fprintf(&sb, "(assert %s)\n", a)
 	}
 	for _, u := range unf {
 		if qfOnly && hasQuant(u) {
+			continue
+		}
+		if coneOnly && hasQuant(u) && !intersects(u, cone) {
 			continue
 		}
 		fmt.Fprintf(&sb, "(assert %s)\n", u)
